@@ -48,6 +48,10 @@ pub struct Entry {
     pub mode: u32,
     pub deny_compile: bool,
     pub buffer_cap: u64,
+    /// when set, the entry is these UTF-16 code units fed through `Source::from_utf16`
+    /// (may contain unpaired surrogates, also as the very last unit)
+    #[serde(default)]
+    pub utf16: Option<Vec<u16>>,
 }
 
 #[derive(Serialize, Deserialize, Clone, Debug)]
@@ -201,6 +205,50 @@ fn mutate(rng: &mut Rng, base: &str, other: &str) -> String {
     t.concat()
 }
 
+/// UTF-16 damage: unpaired surrogates anywhere, in particular as the last code unit.
+fn damage_utf16(rng: &mut Rng, units: &mut Vec<u16>) {
+    for _ in 0..rng.range(1, 3) {
+        let lone = *rng.pick(&[0xD800u16, 0xD83D, 0xDBFF, 0xDC00, 0xDE00, 0xDFFF]);
+        match rng.below(6) {
+            0 | 1 => units.push(lone),
+            2 => {
+                let at = rng.idx(units.len() + 1);
+                units.insert(at, lone);
+            }
+            3 => {
+                // cut right behind the first half of a real pair
+                units.extend([0xD83D, 0xDE00]);
+                units.pop();
+            }
+            4 => {
+                units.extend("//".encode_utf16());
+                units.push(lone);
+            }
+            _ => {
+                let at = rng.idx(units.len() + 1);
+                units.truncate(at);
+                units.push(lone);
+            }
+        }
+    }
+}
+
+/// The code units as a JavaScript string literal (everything but plain ASCII as \uXXXX, so that
+/// unpaired surrogates survive and reach the parser as a UTF-16 source through eval / Function).
+fn js_string_literal(units: &[u16]) -> String {
+    let mut out = String::from("\"");
+    for &u in units {
+        match u {
+            0x22 => out.push_str("\\\""),
+            0x5C => out.push_str("\\\\"),
+            0x20..=0x7E => out.push(u as u8 as char),
+            _ => out.push_str(&format!("\\u{u:04X}")),
+        }
+    }
+    out.push('"');
+    out
+}
+
 fn base_program(rng: &mut Rng) -> String {
     match rng.below(10) {
         0..=3 => {
@@ -246,8 +294,30 @@ pub fn generate(rng: &mut Rng, tier: Tier) -> Value {
                 mutate(rng, &base, &other)
             }
         };
+        let mut utf16 = None;
+        let text = if rng.chance(1, 8) {
+            // the text reaches the parser as UTF-16: directly, or as the string argument of eval /
+            // Function (a second lexer entry point with its own end-of-input handling)
+            let short = rng.chance(1, 2);
+            let mut units: Vec<u16> = if short { rng.pick(&["7", "a", "'s'", "x=1", "/r/", "`t`", "1 //", "a,b", ""]).encode_utf16().collect() } else { text.encode_utf16().collect() };
+            if rng.chance(3, 4) {
+                damage_utf16(rng, &mut units);
+            }
+            match rng.below(6) {
+                0 | 1 => {
+                    utf16 = Some(units);
+                    text
+                }
+                2 => format!("eval({});", js_string_literal(&units)),
+                3 => format!("(0, eval)({});", js_string_literal(&units)),
+                4 => format!("new Function({}, 'return 1');", js_string_literal(&units)),
+                _ => format!("new Function('a', {})(1);", js_string_literal(&units)),
+            }
+        } else {
+            text
+        };
         let mut raw = None;
-        if rng.chance(1, 12) {
+        if utf16.is_none() && rng.chance(1, 12) {
             // byte-level damage: may produce invalid UTF-8
             let mut b = text.clone().into_bytes();
             for _ in 0..rng.range(1, 4) {
@@ -268,7 +338,9 @@ pub fn generate(rng: &mut Rng, tier: Tier) -> Value {
             }
         }
         let len = raw.as_ref().map_or(text.len(), Vec::len);
-        let reader = if raw.is_some() || rng.chance(1, 4) {
+        let reader = if utf16.is_some() {
+            None
+        } else if raw.is_some() || rng.chance(1, 4) {
             Some(ReaderPlan {
                 chunk: *rng.pick(&[0usize, 1, 1, 2, 3, 7, 64]),
                 eintr_every: *rng.pick(&[0u32, 0, 2, 3, 10]),
@@ -299,6 +371,7 @@ pub fn generate(rng: &mut Rng, tier: Tier) -> Value {
             },
             deny_compile: rng.chance(1, 10),
             buffer_cap: if rng.chance(1, 8) { *rng.pick(&[0u64, 1, 7, 8, 63, 1024]) } else { 0 },
+            utf16,
         });
     }
     let sc = Scenario {
@@ -358,7 +431,7 @@ pub fn execute(v: &Value) -> RunReport {
         let outcome: String = if e.mode == u32::MAX {
             // module evaluation: the entry source plus one dependency served by the loader
             loader.sources.borrow_mut().insert("dep".into(), "export let d = 1; export default function(){ return d; }".into());
-            loader.plans.borrow_mut().insert("dep".into(), LoadPlan { latency: 2, fault: sc.loader_fault });
+            loader.plans.borrow_mut().insert("dep".into(), LoadPlan { latency: 2, fault: sc.loader_fault, fault_times: 0 });
             let src = format!("import dflt, {{d}} from 'dep';\n{}", String::from_utf8_lossy(&bytes));
             match boa_engine::Module::parse(Source::from_bytes(src.as_bytes()), None, ctx) {
                 Err(err) => js::error_string(&err, ctx),
@@ -378,6 +451,10 @@ pub fn execute(v: &Value) -> RunReport {
             }
         } else {
             let r = match (&e.reader, e.mode) {
+                _ if e.utf16.is_some() => {
+                    rep.fault("input.utf16_source", 1);
+                    ctx.eval(Source::from_utf16(e.utf16.as_deref().unwrap_or(&[])))
+                }
                 (Some(plan), _) => {
                     let mut fr = FaultyReader { data: bytes.clone(), pos: 0, calls: 0, plan: plan.clone(), fired: [0; 4] };
                     let r = ctx.eval(Source::from_reader(&mut fr, None));
@@ -526,7 +603,7 @@ pub const PROP: Prop = Prop {
     generate,
     execute,
     shrink,
-    rule: "one run = a history of 1..6 (quick) / 1..30 (thorough) entries on a reused or fresh context; each entry = an input (kernel, harvested snippet, litmus or sabotage program, or a token-level mutant of two of them: delete / duplicate / swap / splice / truncate / bracket nesting up to 64 / grammar spice, occasionally byte damage giving invalid UTF-8) fed through Source::from_bytes, a faulty io::Read (1..64-byte reads, EINTR, hard error at byte k, EOF inside a sequence), budgeted evaluation or module evaluation through the simulated loader (latency, fetch / parse fault), under a seeded swarm of faults: limit triples with tiny values, collection at every k-th allocation (k=1 included) and at yields, refused string compilation, buffer cap; non-trivial = at least one fault fired; distinct = distinct (history length, reuse, schedule, sequence of outcome kinds). The byte-string axis of the property is sampled by a plain seeded generator without coverage guidance: the simulator contributes the fault and history axis, not a better input search.",
+    rule: "one run = a history of 1..6 (quick) / 1..30 (thorough) entries on a reused or fresh context; each entry = an input (kernel, harvested snippet, litmus or sabotage program, or a token-level mutant of two of them: delete / duplicate / swap / splice / truncate / bracket nesting up to 64 / grammar spice, occasionally byte damage giving invalid UTF-8; 1 in 8 as UTF-16 code units with unpaired surrogates inserted, appended or left by a cut pair) fed through Source::from_bytes, Source::from_utf16 or the string argument of eval / Function, a faulty io::Read (1..64-byte reads, EINTR, hard error at byte k, EOF inside a sequence), budgeted evaluation or module evaluation through the simulated loader (latency, fetch / parse fault), under a seeded swarm of faults: limit triples with tiny values, collection at every k-th allocation (k=1 included) and at yields, refused string compilation, buffer cap; non-trivial = at least one fault fired; distinct = distinct (history length, reuse, schedule, sequence of outcome kinds). The byte-string axis of the property is sampled by a plain seeded generator without coverage guidance: the simulator contributes the fault and history axis, not a better input search.",
     real: &["lexer/parser/compiler/VM/builtins", "boa_gc", "SimpleJobExecutor", "module loading through the ModuleLoader seam"],
     stub: &["FaultyReader (io::Read)", "SimLoader", "SimHooks (deny compile, buffer cap)", "collection trigger decision (hook H1)"],
     assumptions: &[
